@@ -33,6 +33,10 @@ CHECKS = {
    text="Enumeration of declared bad-frame families - all 256 first octets, all 4096 (NH,HT,HST) triples, every truncation length and single-bit flips of 14 valid packet kinds (crafted beacon/SHB/TSB/GBCx3/GAC/GUC/LS packets and REAL CAM/DENM/VAM frames captured from a sender stack), RHL>MHL, all station-type values, zero/oversized areas, all lifetime codes, every truncation and bit flips of the real facility payloads, short arbitrary byte strings, own-MAC and foreign-unicast frames - each inserted at several positions of two valid streams and run through the REAL RawLinkLayer.receive() loop (scripted socket) of a complete station (GN + BTP + CA/DEN/VRU services, with and without LDM), next to a run without the bad frame. A reference parser classifies each frame; for malformed/ignored frames handler invocations, emitted frames, location table and LDM must be identical, for frames with an undecodable facility payload handlers and LDM, for well-formed mutants the loop must stay alive. The cv2x callback loop is driven over a scripted queue as second target. The suite never runs the receive loop at all.",
    note="Trusted: CPython, asn1tools (to classify facility payloads), reference parser mc/ref/gn_codec.py and classify() in mc/checks/c04.py. Secured envelopes are covered by C03's mutation families (exceptions from verify count as not delivered there).",
    technique="exhaustive fault enumeration through the real receive loop with a differential (with/without the bad frame) oracle"),
+ "C19": dict(level="model_checking", design="3/C19",
+   text="Reactive DCC: the COMPLETE transition graph of the real state machine (every state x every band-boundary representative of both Annex A tables with +-1e-9 neighbours, 0 and 1, for six T_on settings) - every edge moves at most one state, outputs equal the literal Annex A row, every constant input reaches its band within four evaluations. Adaptive DCC: ALL CBR sequences up to length 7 (8 thorough) over the boundary alphabet x 5 parameter sets x local/global, delta compared with the clause 5.4 recurrence in exact rationals and with [delta_min, delta_max]; out-of-range local CBR rejected without trace. Gate keeper: explicit-state BFS over arrivals, delta updates and clock steps (to t_go exactly, +-0.5 ns, -1 us, ...) in lock-step with a B.1/B.2 reference in Fractions: open/closed agreement on every state, admissions >= 25 ms apart, closed <= 1 s, one admission per opening.",
+   note="Trusted: CPython, mc/ref/dcc.py (Annex A literals; the A.1 Active-3/Restrictive boundary 0.60 and equations taken from the code's docstrings because the standard text is not available offline), deepcopy snapshots cross-checked by replay. Gate times near small origins (float rounding of B.2 at epoch magnitude exceeds 1 ns).",
+   technique="complete transition graph + exhaustive bounded sequence enumeration + explicit-state BFS with reference model in lock-step"),
 }
 
 NOT_APPLICABLE = {}
